@@ -50,7 +50,7 @@ pub fn build(target: &str) -> Result<(), String> {
 fn seeds_for(target: &str) -> Vec<Vec<u8>> {
     match target {
         "dns" => crate::mutate::dns_seeds(),
-        "dhcp" => crate::mutate::dhcp_seeds(),
+        "dhcp" => crate::mutate::dhcp_seeds().into_iter().chain(crate::mutate::dhcp_long_split().into_iter().step_by(37)).collect(),
         "icmp6" => crate::mutate::icmp6_seeds(),
         "lldp" => crate::mutate::lldp_seeds(),
         "config" => crate::conf::reference_docs().into_iter().map(|(_, d)| d.into_bytes()).collect(),
